@@ -221,8 +221,8 @@ func (sc *Scheduler) Go(id string, fn func(ctx context.Context)) *Op {
 			}
 			op.state = msDone
 			delete(sc.family, gid)
+			close(op.done) // before the unlock: whoever sees msDone must also see Done()
 			sc.mu.Unlock()
-			close(op.done)
 			sc.signal()
 		}()
 		fn(op.ctx)
@@ -358,10 +358,24 @@ func (sc *Scheduler) Quiesce() ([]*Call, error) {
 			return sc.parkedCalls(), nil
 		}
 		if settled || childWaiting || wait > 100*time.Microsecond {
+			// Two dumps in a row must agree and no goroutine may have signalled in between.
 			if sc.allBlocked() {
-				// Re-read under the lock: nothing can have moved since the dump, because
-				// every goroutine of every operation was blocked.
-				return sc.parkedCalls(), nil
+				select {
+				case <-sc.wake:
+					continue
+				default:
+				}
+				runtime.Gosched()
+				if sc.allBlocked() {
+					select {
+					case <-sc.wake:
+						continue
+					default:
+					}
+					// Nothing can have moved since the dumps: every goroutine of every
+					// operation was blocked on another goroutine.
+					return sc.parkedCalls(), nil
+				}
 			}
 		}
 		if time.Now().After(deadline) {
@@ -511,8 +525,14 @@ func (sc *Scheduler) allBlocked() bool {
 		if c := strings.IndexByte(state, ','); c >= 0 {
 			state = state[:c]
 		}
+		// Only states in which a goroutine waits for another goroutine count as blocked;
+		// anything else (running, runnable, syscall, sleep, GC assist wait, ...) resumes on
+		// its own.
 		switch state {
-		case "running", "runnable", "syscall", "copystack", "preempted", "waiting", "":
+		case "chan receive", "chan send", "select", "semacquire", "sync.Mutex.Lock", "sync.RWMutex.Lock",
+			"sync.RWMutex.RLock", "sync.Cond.Wait", "sync.WaitGroup.Wait", "chan receive (nil chan)",
+			"chan send (nil chan)", "select (no cases)":
+		default:
 			cur.running = true
 		}
 		if k := strings.LastIndex(blk, " in goroutine "); k >= 0 {
